@@ -1453,6 +1453,19 @@ def workload_c(chk, exe_plain, exe_asan, tier, scale, cov):
                 vec_moved = any("dst" in v and v["src"]["k"] == "reg" and v["src"]["g"] == "vec" and v["dst"]["k"] == "reg" and v["dst"]["id"] != v["src"]["id"] for v in c["vals"])
                 if len(vec_srcs) >= {"x86": 8, "x64": 16, "a64": 32}[arch] and vec_moved and c["err"].endswith("InvalidState"):
                     feats = {"all-vector-registers-hold-arguments"}    # no scratch register exists; swapping without one is not implemented
+                gp_used = set()
+                for v in c["vals"]:
+                    if v["src"]["k"] == "reg" and v["src"]["g"] == "gp" and not v["src"].get("ind"):
+                        gp_used.add(v["src"]["id"])
+                    if "dst" in v and v["dst"]["k"] == "reg" and v["dst"]["g"] == "gp":
+                        gp_used.add(v["dst"]["id"])
+                for extra in (c.get("sa_out", -1), c.get("sa_preset", -1)):
+                    if extra >= 0:
+                        gp_used.add(extra)
+                gp_allocable = {"x86": 7, "x64": 15, "a64": 29}[arch] - (1 if c.get("fp") else 0)
+                mem2mem_gp = any("dst" in v and v["src"]["k"] == "stack" and v["dst"]["k"] == "stack" and max(tsize(v["src"]["t"]), tsize(v["eff"])) <= (4 if arch == "x86" else 8) for v in c["vals"])
+                if mem2mem_gp and len(gp_used) >= gp_allocable and c["err"].endswith("InvalidState"):
+                    feats = {"every-gp-register-in-use:stack->stack-copy"}    # true exhaustion: no register is free at any point of the sequence
                 if not feats and c.get("sa_out", -1) >= 0:
                     feats.add("sa-register-requested")
                 if c["err"].endswith("InvalidRexPrefix") and byte_hi:
